@@ -115,8 +115,13 @@ def impl_shared(case):
         s = LineScheduler(files=("eliot/_output.py", "eliot/_validation.py"))
         instrument(d, s)
 
+        vals = {t: {k: "t%d-%s" % (t, k) for k in "abc"} for t in (0, 1)}     # the same value objects both times
+
         def make(t):
-            return lambda: T.log(a="t%d-a" % t, b="t%d-b" % t, c="t%d-c" % t)
+            def body():
+                T.log(**vals[t])
+                T.log(**vals[t])
+            return body
         sched = case.get("sched")
         if sched is None:
             sched = segments_to_schedule([tuple(x) for x in case["segments"]])
@@ -124,7 +129,7 @@ def impl_shared(case):
         results = s.results
         want = ["t0", "t1"]
     msgs = [{k: m.get(k) for k in ("message_type", "a", "b", "c")} for m in got]
-    return {"results": results, "msgs": msgs, "calls": calls, "want": want}
+    return {"results": results, "msgs": msgs, "calls": calls, "want": want, "times": 1 if case.get("reentrant") else 2}
 
 
 def oracle_shared(case, obs):
@@ -136,16 +141,17 @@ def oracle_shared(case, obs):
         return "unexpected extra messages: %r" % [m["message_type"] for m in obs["msgs"]]
     for who in obs["want"]:
         exp = {"message_type": "typed:shared", "a": ["S", "a", who + "-a"], "b": ["S", "b", who + "-b"], "c": ["S", "c", who + "-c"]}
+        times = obs.get("times", 1)
         n = sum(1 for m in typed if m == exp)
-        if n != 1:
-            return ("the message logged with values %s-a/%s-b/%s-c must arrive once with each declared field replaced by its "
-                    "own serializer's output; delivered: %r" % (who, who, who, typed))
+        if n != times:
+            return ("the message logged %d time(s) with values %s-a/%s-b/%s-c must arrive as often, each declared field replaced by "
+                    "its own serializer's output; delivered: %r" % (times, who, who, who, typed))
         for name in "abc":
             k = sum(1 for c in obs["calls"] if c == [name, "%s-%s" % (who, name)])
-            if k != 1:
+            if k != times:
                 return "serializer of field %s ran %d times for the value %s-%s" % (name, k, who, name)
-    if len(typed) != len(obs["want"]):
-        return "%d typed messages delivered, %d logged" % (len(typed), len(obs["want"]))
+    if len(typed) != len(obs["want"]) * obs.get("times", 1):
+        return "%d typed messages delivered, %d logged" % (len(typed), len(obs["want"]) * obs.get("times", 1))
     return None
 
 
